@@ -22,6 +22,8 @@ FIRST = {
     # round 6 (11 of 20 missed)
     "C02/6": "missed", "C03/7": "missed", "C06/6": "missed", "C09/6": "missed", "C11/6": "missed", "C12/6": "missed", "C13/6": "missed",
     "C15/6": "missed", "C16/6": "missed", "C18/6": "missed", "C20/6": "missed",
+    # round 7 (9 changes, 6 missed)
+    "C01/7": "missed", "C04/7": "missed", "C05/7": "missed", "C10/7": "missed", "C14/8": "missed", "C17/7": "missed",
 }
 
 
